@@ -99,6 +99,10 @@ func buildHistory(c *core.Ctx, prop string, idx int, kind string) *histCase {
 			if r.Chance(1, 25) {
 				hc.reopen()
 			}
+			if r.Chance(1, 30) {
+				// re-select the current database (other letter case): a no-op
+				hc.add(proto.Op{K: "sql", SQL: "USE D1"}, opMeta{kind: "reopen"})
+			}
 			if prop == "C11" && r.Chance(1, 12) {
 				hc.crashRecover()
 			}
@@ -157,7 +161,7 @@ func buildHistory(c *core.Ctx, prop string, idx int, kind string) *histCase {
 				panic("catalog case: create failed in model")
 			}
 			hc.addStmt(s, st)
-			if r.Chance(1, 2) {
+			for k := r.Intn(3); k > 0; k-- {
 				t := h.DB.Tables[r.Intn(len(h.DB.Tables))]
 				ins := h.Insert(t, r.Range(1, 10))
 				if f, _, _, err := h.DB.Apply(ins); f == "" && err == nil {
